@@ -9,10 +9,26 @@ def Quiet (i : Nat) (cur : SV) : Event → Prop
   | .ret j _ _ _ => j = i
   | _ => False
 
+/-- Indices of the `Migrate` calls recorded in a log (newest first). -/
+def callIdxs (log : List Event) : List Nat :=
+  log.filterMap (fun e => match e with | .call j _ => some j | _ => none)
+
+theorem callIdxs_append (a b : List Event) : callIdxs (a ++ b) = callIdxs a ++ callIdxs b := by
+  simp [callIdxs, List.filterMap_append]
+
+theorem mem_callIdxs {log : List Event} {j : Nat} : j ∈ callIdxs log ↔ ∃ c, Event.call j c ∈ log := by
+  simp only [callIdxs, List.mem_filterMap]
+  constructor
+  · rintro ⟨e, he, h⟩
+    cases e <;> simp at h
+    subst h; exact ⟨_, he⟩
+  · rintro ⟨c, hc⟩; exact ⟨_, hc, rfl⟩
+
 /-- The three shapes of one `runMigration`. -/
 inductive RM (cfg : Cfg) (env : Env) (last : SV) (i : Nat) (s : RunSt) : RunSt → Option Result → Prop
   | stop (s' : RunSt) (r : Result) (evs : List Event) :
       s'.disk = s.disk → s'.cur = s.cur → s'.log = evs ++ s.log → (∀ e ∈ evs, Quiet i s.cur e) →
+      (callIdxs evs = [] ∨ callIdxs evs = [i]) →
       RM cfg env last i s s' (some r)
   | save (s' : RunSt) (r : Option Result) (st : Bytes) (c : Bool) :
       (env.beh i).st = some st →
@@ -33,15 +49,15 @@ theorem runMigration_shape (cfg : Cfg) (env : Env) (last : SV) (i : Nat) (s : Ru
   unfold runMigration
   simp only []
   split
-  · exact .stop _ _ [] rfl rfl rfl (by simp)
+  · exact .stop _ _ [] rfl rfl rfl (by simp) (by simp [callIdxs])
   split
-  · exact .stop _ _ [.before i (s.disk.ist i)] rfl rfl rfl (by simp [Quiet])
+  · exact .stop _ _ [.before i (s.disk.ist i)] rfl rfl rfl (by simp [Quiet]) (by simp [callIdxs])
   split
-  · exact .stop _ _ [.before i (s.disk.ist i)] rfl rfl rfl (by simp [Quiet])
+  · exact .stop _ _ [.before i (s.disk.ist i)] rfl rfl rfl (by simp [Quiet]) (by simp [callIdxs])
   split
-  · exact .stop _ _ [.call i s.cur, .before i (s.disk.ist i)] rfl rfl rfl (by simp [Quiet])
+  · exact .stop _ _ [.call i s.cur, .before i (s.disk.ist i)] rfl rfl rfl (by simp [Quiet]) (by simp [callIdxs])
   split
-  · exact .stop _ _ [.ret i _ _ _, .call i s.cur, .before i (s.disk.ist i)] rfl rfl rfl (by simp [Quiet])
+  · exact .stop _ _ [.ret i _ _ _, .call i s.cur, .before i (s.disk.ist i)] rfl rfl rfl (by simp [Quiet]) (by simp [callIdxs])
   split
   · rename_i st heq
     refine .save _ _ st (decide (env.cancelAt ≤ s.tick + 1 + 1)) heq rfl rfl (by simp only [RunSt.tickEv, RunSt.cancelled, heq] <;> rfl) ?_
@@ -52,7 +68,7 @@ theorem runMigration_shape (cfg : Cfg) (env : Env) (last : SV) (i : Nat) (s : Ru
     · simp; omega
   · rename_i heq
     split
-    · exact .stop _ _ [.ret i _ _ _, .call i s.cur, .before i (s.disk.ist i)] rfl rfl rfl (by simp [Quiet])
+    · exact .stop _ _ [.ret i _ _ _, .call i s.cur, .before i (s.disk.ist i)] rfl rfl rfl (by simp [Quiet]) (by simp [callIdxs])
     · rename_i h2
       refine .apply _ (decide (env.cancelAt ≤ s.tick + 1 + 1)) heq ?_ rfl rfl (by simp only [RunSt.tickEv, RunSt.cancelled, heq] <;> rfl)
       cases herr : (env.beh i).err <;> simp_all [RunSt.cancelled, RunSt.tickEv]
@@ -101,14 +117,16 @@ structure RunQ (cfg : Cfg) (env : Env) (T cur0 : SV) (d : Disk) (s : RunSt) : Pr
   ist_frame : ∀ j, s.disk.ist j ≠ d.ist j → T.has j = true ∧ cur0.has j = false
   ist_clear : ∀ j, s.cur.has j = true → cur0.has j = false → s.disk.ist j = none
   calls : ∀ j c, Event.call j c ∈ s.log → T.has j = true ∧ c.has j = false ∧
-      (∀ i, c.has i = true → s.cur.has i = true) ∧
+      (∀ i, c.has i = true → s.cur.has i = true) ∧ (∀ i, cur0.has i = true → c.has i = true) ∧
       (∀ i, i < j → T.has i = true → c.has i = true ∨ InProg s.log i)
+  callsDesc : (callIdxs s.log).Pairwise (· > ·)
 
 structure LoopInv (cfg : Cfg) (env : Env) (T cur0 : SV) (d : Disk) (rest : List Nat) (s : RunSt) : Prop where
   q : RunQ cfg env T cur0 d s
   sorted : rest.Pairwise (· < ·)
   pend : ∀ j ∈ rest, T.has j = true ∧ s.cur.has j = false ∧ cur0.has j = false
   cover : ∀ k, T.has k = true → s.cur.has k = true ∨ InProg s.log k ∨ k ∈ rest
+  below : ∀ j ∈ callIdxs s.log, ∀ k ∈ rest, j < k
 
 theorem loop_step (cfg : Cfg) (env : Env) (T cur0 : SV) (d : Disk) (i : Nat) (rest : List Nat)
     (s s' : RunSt) (r : Option Result)
@@ -129,11 +147,18 @@ theorem loop_step (cfg : Cfg) (env : Env) (T cur0 : SV) (d : Disk) (i : Nat) (re
     · exact .inl hc
     · exact .inr (hp.mono hl)
     · exact absurd hm (hlt k hk)
+  have hdesc_i : (i :: callIdxs s.log).Pairwise (· > ·) :=
+    List.pairwise_cons.mpr ⟨fun j hj => h.below j hj i List.mem_cons_self, h.q.callsDesc⟩
+  have hbelow_i : ∀ j ∈ i :: callIdxs s.log, ∀ k ∈ rest, j < k := by
+    intro j hj k hk
+    rcases List.mem_cons.mp hj with rfl | hj
+    · exact hsorted.1 k hk
+    · exact h.below j hj k (List.mem_cons_of_mem _ hk)
   cases hrm with
-  | stop r evs hdisk hcur hlog hq =>
+  | stop r evs hdisk hcur hlog hq hci =>
     have hmono : ∀ e, e ∈ s.log → e ∈ s'.log := by intro e he; rw [hlog]; exact List.mem_append_right _ he
     show RunQ cfg env T cur0 d s'
-    refine ⟨by rw [hdisk, hcur]; exact h.q.md, ?_, ?_, ?_, ?_, ?_, ?_⟩
+    refine ⟨by rw [hdisk, hcur]; exact h.q.md, ?_, ?_, ?_, ?_, ?_, ?_, ?_⟩
     · intro j hj; rw [hcur] at hj
       rcases h.q.cur_sub j hj with h1 | ⟨h1, h2⟩
       · exact .inl h1
@@ -153,21 +178,25 @@ theorem loop_step (cfg : Cfg) (env : Env) (T cur0 : SV) (d : Disk) (i : Nat) (re
       · have := hq _ hj
         simp only [Quiet] at this
         obtain ⟨rfl, rfl⟩ := this
-        refine ⟨hi.1, hi.2.1, ?_, ?_⟩
+        refine ⟨hi.1, hi.2.1, ?_, h.q.cur_mono, ?_⟩
         · intro k hk; rw [hcur]; exact hk
         · intro k hk hT; exact hcall s'.log hmono k hk hT
-      · obtain ⟨h1, h2, h3, h4⟩ := h.q.calls j c hj
-        refine ⟨h1, h2, ?_, ?_⟩
+      · obtain ⟨h1, h2, h3, h3', h4⟩ := h.q.calls j c hj
+        refine ⟨h1, h2, ?_, h3', ?_⟩
         · intro k hk; rw [hcur]; exact h3 k hk
         · intro k hk hT
           rcases h4 k hk hT with h5 | h5
           · exact .inl h5
           · exact .inr (h5.mono hmono)
+    · rw [hlog, callIdxs_append]
+      rcases hci with hci | hci
+      · rw [hci]; exact h.q.callsDesc
+      · rw [hci]; exact hdesc_i
   | save _ st c hst hdisk hcur hlog hr =>
     have hmono : ∀ e, e ∈ s.log → e ∈ s'.log := by
       intro e he; rw [hlog]; simp [he]
     have hq' : RunQ cfg env T cur0 d s' := by
-      refine ⟨by rw [hdisk, hcur]; exact h.q.md, ?_, ?_, ?_, ?_, ?_, ?_⟩
+      refine ⟨by rw [hdisk, hcur]; exact h.q.md, ?_, ?_, ?_, ?_, ?_, ?_, ?_⟩
       · intro j hj; rw [hcur] at hj
         rcases h.q.cur_sub j hj with h1 | ⟨h1, h2⟩
         · exact .inl h1
@@ -190,22 +219,25 @@ theorem loop_step (cfg : Cfg) (env : Env) (T cur0 : SV) (d : Disk) (i : Nat) (re
         rw [hlog] at hj
         simp only [List.mem_cons, reduceCtorEq, false_or, Event.call.injEq] at hj
         rcases hj with ⟨rfl, rfl⟩ | hj
-        · refine ⟨hi.1, hi.2.1, ?_, ?_⟩
+        · refine ⟨hi.1, hi.2.1, ?_, h.q.cur_mono, ?_⟩
           · intro k hk; rw [hcur]; exact hk
           · intro k hk hT; exact hcall s'.log hmono k hk hT
-        · obtain ⟨h1, h2, h3, h4⟩ := h.q.calls j c' hj
-          refine ⟨h1, h2, ?_, ?_⟩
+        · obtain ⟨h1, h2, h3, h3', h4⟩ := h.q.calls j c' hj
+          refine ⟨h1, h2, ?_, h3', ?_⟩
           · intro k hk; rw [hcur]; exact h3 k hk
           · intro k hk hT
             rcases h4 k hk hT with h5 | h5
             · exact .inl h5
             · exact .inr (h5.mono hmono)
+      · have : callIdxs s'.log = i :: callIdxs s.log := by rw [hlog]; simp [callIdxs]
+        rw [this]; exact hdesc_i
     cases r with
     | some _ => exact hq'
     | none =>
       have hc : c = false := hr rfl
       subst hc
-      refine ⟨hq', hsorted.2, ?_, ?_⟩
+      have hci' : callIdxs s'.log = i :: callIdxs s.log := by rw [hlog]; simp [callIdxs]
+      refine ⟨hq', hsorted.2, ?_, ?_, by rw [hci']; exact hbelow_i⟩
       · intro j hj
         have := h.pend j (List.mem_cons_of_mem _ hj)
         rw [hcur]; exact this
@@ -225,7 +257,7 @@ theorem loop_step (cfg : Cfg) (env : Env) (T cur0 : SV) (d : Disk) (i : Nat) (re
       intro j; rw [hcur, SV.has_set]; simp [hi64]
     show LoopInv cfg env T cur0 d rest s'
     have hq' : RunQ cfg env T cur0 d s' := by
-      refine ⟨by rw [hdisk, hcur], ?_, ?_, ?_, ?_, ?_, ?_⟩
+      refine ⟨by rw [hdisk, hcur], ?_, ?_, ?_, ?_, ?_, ?_, ?_⟩
       · intro j hj; rw [hcur'] at hj
         by_cases hji : j = i
         · subst hji; exact .inr ⟨hi.1, by rw [hlog]; simp⟩
@@ -255,17 +287,20 @@ theorem loop_step (cfg : Cfg) (env : Env) (T cur0 : SV) (d : Disk) (i : Nat) (re
         rw [hlog] at hj
         simp only [List.mem_cons, reduceCtorEq, false_or, Event.call.injEq] at hj
         rcases hj with ⟨rfl, rfl⟩ | hj
-        · refine ⟨hi.1, hi.2.1, ?_, ?_⟩
+        · refine ⟨hi.1, hi.2.1, ?_, h.q.cur_mono, ?_⟩
           · intro k hk; rw [hcur']; simp [hk]
           · intro k hk hT; exact hcall s'.log hmono k hk hT
-        · obtain ⟨h1, h2, h3, h4⟩ := h.q.calls j c' hj
-          refine ⟨h1, h2, ?_, ?_⟩
+        · obtain ⟨h1, h2, h3, h3', h4⟩ := h.q.calls j c' hj
+          refine ⟨h1, h2, ?_, h3', ?_⟩
           · intro k hk; rw [hcur']; simp [h3 k hk]
           · intro k hk hT
             rcases h4 k hk hT with h5 | h5
             · exact .inl h5
             · exact .inr (h5.mono hmono)
-    refine ⟨hq', hsorted.2, ?_, ?_⟩
+      · have : callIdxs s'.log = i :: callIdxs s.log := by rw [hlog]; simp [callIdxs]
+        rw [this]; exact hdesc_i
+    have hci' : callIdxs s'.log = i :: callIdxs s.log := by rw [hlog]; simp [callIdxs]
+    refine ⟨hq', hsorted.2, ?_, ?_, by rw [hci']; exact hbelow_i⟩
     · intro j hj
       have := h.pend j (List.mem_cons_of_mem _ hj)
       have hji : j ≠ i := by have := hsorted.1 j hj; omega
